@@ -173,7 +173,16 @@ func CheckKinds(run *core.Run, prog *load.Program) {
 			case *ast.RangeStmt:
 				if id, ok := lp.Key.(*ast.Ident); ok && id.Name != "_" {
 					if t := finfo.TypeOf(lp.X); t != nil {
-						if _, isMap := t.Underlying().(*types.Map); !isMap {
+						switch u := t.Underlying().(type) {
+						case *types.Map:
+						case *types.Signature:
+							// an iterator: with a one-parameter yield the variable is the component itself
+							if u.Params().Len() == 1 {
+								if y, ok := u.Params().At(0).Type().Underlying().(*types.Signature); ok && y.Params().Len() == 2 {
+									idx = finfo.ObjectOf(id)
+								}
+							}
+						default:
 							idx = finfo.ObjectOf(id)
 						}
 					}
